@@ -385,6 +385,13 @@ func (b *Bucket) MoveBucket(key []byte, dstBucket *Bucket) (err error) {
 		return errors.ErrSameBuckets
 	}
 
+	// A bucket cannot be moved into itself or into one of its own sub-buckets:
+	// it would be unlinked from the tree together with everything below it.
+	if child := b.buckets[string(newKey)]; child != nil && (child == dstBucket || child.hasOpenedBucket(dstBucket)) {
+		lg.Errorf("The target bucket (%s) is inside the bucket %q to be moved", dstBucket, newKey)
+		return errors.ErrSameBuckets
+	}
+
 	// check whether the key already exists in the destination bucket
 	curDst := dstBucket.Cursor()
 	k, _, flags = curDst.seek(newKey)
@@ -415,6 +422,17 @@ func (b *Bucket) MoveBucket(key []byte, dstBucket *Bucket) (err error) {
 	}
 
 	return nil
+}
+
+// hasOpenedBucket reports whether target is one of the sub-buckets, at any depth,
+// opened through b in this transaction.
+func (b *Bucket) hasOpenedBucket(target *Bucket) bool {
+	for _, child := range b.buckets {
+		if child == target || child.hasOpenedBucket(target) {
+			return true
+		}
+	}
+	return false
 }
 
 // Inspect returns the structure of the bucket.
